@@ -16,6 +16,7 @@ import (
 	"github.com/syndtr/goleveldb/leveldb/opt"
 	"github.com/syndtr/goleveldb/leveldb/storage"
 	"github.com/syndtr/goleveldb/leveldb/util"
+	"verifharness/lib/dbh"
 	"verifharness/lib/vlib"
 	"verifharness/lib/vstor"
 )
@@ -251,8 +252,15 @@ func (g *progGen) batch() []bop {
 	return b
 }
 
-func genDBCase(r *vlib.RNG, small bool, maxMove int) *dbCase {
+// classCmp: the program runs under the NON-INJECTIVE comparer (id 4, ASCII case-insensitive; vlib.CaseFold): the
+// pool holds several spellings per user key, the three models (DB, snapshots, transaction) are keyed by equivalence
+// class (dbh.Oracle Put/Del/Apply), and the key an iterator shows for a class is the spelling of its newest visible Put
+// (liveFromRaw: the head entry of the class).
+func genDBCase(r *vlib.RNG, small bool, maxMove int, classCmp bool) *dbCase {
 	cid := r.Intn(vlib.NumComparers)
+	if classCmp {
+		cid = vlib.CmpCaseFold
+	}
 	c := &dbCase{Kind: "db", Cid: cid, Opts: genOpts(r, small), Settled: !r.Chance(1, 5)}
 	if c.Opts.NoTableComp {
 		c.Opts.Sampling = 0
@@ -266,6 +274,10 @@ func genDBCase(r *vlib.RNG, small bool, maxMove int) *dbCase {
 	g.pool = genKeySet(r, npool, cmp)
 	if len(g.pool) == 0 {
 		g.pool = [][]byte{{'a'}}
+	}
+	if classCmp {
+		g.pool = dbh.SpellPool(r, g.pool)
+		sort.SliceStable(g.pool, func(i, j int) bool { return cmp.Compare(g.pool[i], g.pool[j]) < 0 })
 	}
 	nops := r.Range(30, 400)
 	if small {
@@ -480,12 +492,12 @@ func sortedView(m map[string][]byte, cmp comparer.Comparer, start, limit *hexbyt
 	return out
 }
 
-func applyBatch(m map[string][]byte, b []bop) {
+func applyBatch(cmp comparer.Comparer, m map[string][]byte, b []bop) {
 	for _, x := range b {
 		if x.Del {
-			delete(m, string(x.K))
+			dbh.Oracle(m).Del(cmp, x.K)
 		} else {
-			m[string(x.K)] = append([]byte{}, x.V...)
+			dbh.Oracle(m).Put(cmp, x.K, x.V)
 		}
 	}
 }
@@ -522,7 +534,7 @@ func liveFromRaw(raw []rawEntry, seq uint64, cmp comparer.Comparer, start, limit
 		if e.Num>>8 > seq {
 			continue
 		}
-		if have && bytes.Equal(last, e.UKey) {
+		if have && cmp.Compare(last, e.UKey) == 0 { // same user key: the comparer decides, not the bytes
 			continue
 		}
 		have, last = true, e.UKey
@@ -688,20 +700,20 @@ func (x *dbExec) run() (ok bool) {
 			if err := x.db.Put(o.K, o.V, nil); err != nil {
 				fail("Put", err)
 			}
-			x.model[string(o.K)] = append([]byte{}, o.V...)
+			dbh.Oracle(x.model).Put(x.cmp, o.K, o.V)
 			x.settle()
 		case "del":
 			if err := x.db.Delete(o.K, nil); err != nil {
 				fail("Delete", err)
 			}
-			delete(x.model, string(o.K))
+			dbh.Oracle(x.model).Del(x.cmp, o.K)
 			x.settle()
 		case "batch":
 			x.settleAlways()
 			if err := x.db.Write(mkBatch(o.Batch), nil); err != nil {
 				fail("Write", err)
 			}
-			applyBatch(x.model, o.Batch)
+			applyBatch(x.cmp, x.model, o.Batch)
 			x.settle()
 		case "compact":
 			rg := util.Range{}
@@ -741,17 +753,17 @@ func (x *dbExec) run() (ok bool) {
 			if err := x.tr.Put(o.K, o.V, nil); err != nil {
 				fail("tr.Put", err)
 			}
-			x.trm[string(o.K)] = append([]byte{}, o.V...)
+			dbh.Oracle(x.trm).Put(x.cmp, o.K, o.V)
 		case "tr_del":
 			if err := x.tr.Delete(o.K, nil); err != nil {
 				fail("tr.Delete", err)
 			}
-			delete(x.trm, string(o.K))
+			dbh.Oracle(x.trm).Del(x.cmp, o.K)
 		case "tr_batch":
 			if err := x.tr.Write(mkBatch(o.Batch), nil); err != nil {
 				fail("tr.Write", err)
 			}
-			applyBatch(x.trm, o.Batch)
+			applyBatch(x.cmp, x.trm, o.Batch)
 		case "tr_commit":
 			if err := x.tr.Commit(); err != nil {
 				fail("tr.Commit", err)
